@@ -22,7 +22,7 @@ RULE = (
     "stamp edits, insert/delete/cut-paste notes, header/section edits, add/delete/mv pages), db reindex "
     "with and without explicit paths, edit sessions through the editor stub (with keep-alive restarts), "
     "zorg file rename, zorg note move, day changes; ends with a plain db reindex. After every plain "
-    "reindex the canonical index dump and a 21-query panel are compared with a db create run on a "
+    "reindex the canonical index dump, a fixed 21-query panel and 5 seeded queries are compared with a db create run on a "
     "copy. non-trivial = at least one reach probe fired (page deleted/renamed, note moved between "
     "pages, orphan tag, section removed, explicit-path reindex then plain, later-day reindex, >=2 "
     "pages changed at once, edit session); distinct = distinct final world-state digest"
@@ -239,17 +239,21 @@ def compare_with_rebuild(sim: core.Sim, scratch: str, rec: hist.Rec, facts: dict
         after = ob.read_files(twin.zdir, (".zo",))
         if before != after:
             return hist.viol("rebuild-had-to-change-files", "-", step=step, pages=[p for p in after if after[p] != before.get(p)])
-        qa = sim.run({"op": "query", "queries": _idx.QUERY_PANEL})
-        qb = twin.run({"op": "query", "queries": _idx.QUERY_PANEL})
-        rec.proc({"op": "query", "n": len(_idx.QUERY_PANEL)}, None, qa)
-        rec.proc({"op": "query", "n": len(_idx.QUERY_PANEL), "on": "copy"}, None, qb)
+        panel = _idx.QUERY_PANEL + _idx.seeded_queries(random.Random((sim.seed << 8) ^ step), ob.list_pages(sim.zdir))
+        qa = sim.run({"op": "query", "queries": panel})
+        qb = twin.run({"op": "query", "queries": panel})
+        rec.proc({"op": "query", "n": len(panel)}, None, qa)
+        rec.proc({"op": "query", "n": len(panel), "on": "copy"}, None, qb)
         if qa.status != qb.status:
             return hist.viol("query-panel-outcome-differs", f"{qa.status}/{qb.status}", step=step, a=qa.brief(), b=qb.brief())
         if qa.status == "ok":
-            for q, ra, rb in zip(_idx.QUERY_PANEL, qa.ret, qb.ret):
+            for q, ra, rb in zip(panel, qa.ret, qb.ret):
+                if isinstance(ra, dict) and isinstance(rb, dict):
+                    rec.stat("queries-failing-on-both:" + ra.get("exc", "?"))
+                    continue
                 if ra != rb:
                     return hist.viol("query-answer-differs", "-", step=step, query=q, history=ra, rebuild=rb)
-            rec.stat("queries-compared", len(_idx.QUERY_PANEL))
+                rec.stat("queries-compared")
         else:
             rec.stat("query-panel-failed-on-both")
         return None
